@@ -355,7 +355,7 @@ func (x *Exec) specIdent(e *ast.Ident, env *SpecEnv) TV {
 	if le, ok := env.lets[name]; ok {
 		// inside a let, the parameters of the function under verification denote their entry values
 		// (a local or loop variable of the same name must not capture them)
-		if !env.noLocals && x.entry != nil && x.top != nil && len(x.frames) > 0 && x.frames[len(x.frames)-1].fi == x.top {
+		if !env.noLocals && x.entry != nil && x.top != nil && x.inTopOrItsClosure() {
 			n := *env
 			n.vars = copyVars(env.vars)
 			_, ps, _ := x.paramObjs(x.top.Decl.Type, x.top.Decl.Recv)
@@ -1467,4 +1467,16 @@ func (x *Exec) contractEnv(fc *FuncContract, fi *FuncInfo, sig *types.Signature,
 // map-typed results their contents at exit.
 func (x *Exec) captureIn(v TV, st *State) TV {
 	return x.capture(v, &SpecEnv{x: x, st: st})
+}
+
+
+// inTopOrItsClosure: the statements being executed belong to the function under verification itself or to one of
+// its function literals (whose parameters may shadow the function's own by name).
+func (x *Exec) inTopOrItsClosure() bool {
+	for i := len(x.frames) - 1; i >= 0; i-- {
+		if x.frames[i].fi != nil {
+			return x.frames[i].fi == x.top
+		}
+	}
+	return false
 }
